@@ -66,7 +66,8 @@ class UMNDirHandler(DirHandler):
                                 self.processLinkFile(self.selectorbase + "/" + file)
                             )
                         except OSError:
-                            pass
+                            # (see DirHandler.prep_entries)
+                            self.cacheunusable = True
                     return False
                 else:
                     return False  # A "dot dir" -- ignore.
